@@ -400,6 +400,12 @@ func c20Updated(c *kit.Case, d *gen.Doc, truth []c20Obj, xf *kit.XFile) {
 	c.Distinct(fmt.Sprintf("upd|%s|%s|%d|%d", d.Cfg.Cell(), strings.Join(d.Ops, " "), len(d.Data), len(upd)))
 }
 
+// c20Sink is an in-memory output whose Flush does nothing, so that the Writer
+// passes every byte on at once and the buffer holds what a crash would leave.
+type c20Sink struct{ bytes.Buffer }
+
+func (s *c20Sink) Flush() error { return nil }
+
 func c20Config(c *kit.Case) gen.DocConfig {
 	cfg := gen.RandomConfig(c.Rng, -1)
 	cfg.Version = gen.Versions[c.Index%9]
@@ -606,6 +612,100 @@ func TestVerifC20(t *testing.T) {
 			c.R.Count("files_with_long_headers_scanned", 1)
 		}
 		c.Distinct(fmt.Sprintf("lh|%s|%d|%d", cfg.Cell(), seed, part))
+	})
+
+	// the longest headers the Writer can produce ("\n16777215 65535 obj", 19 bytes
+	// with the leading end-of-line): the Writer is abandoned before Close (a crash
+	// at that byte, so that no cross-reference table for sixteen million numbers
+	// is ever written), behind a filler of every length modulo the scanner's
+	// buffer: the header falls at every offset relative to the refills of the
+	// marker search
+	r.Phase("longest-header-unclosed-writer", r.N(4, 48), func(c *kit.Case) {
+		rng := c.Rng
+		base := rng.Intn(4) * 1024
+		human := rng.Bool()
+		nBig := 1 + rng.Intn(3)
+		type put struct {
+			ref pdf.Reference
+			val pdf.Object
+		}
+		var puts []put
+		usedNum := map[uint32]bool{}
+		for i := 0; i < nBig; i++ {
+			num := uint32(10000000 + rng.Intn(6777216))
+			if i == 0 && rng.Bool() {
+				num = 16777215
+			}
+			if usedNum[num] {
+				continue
+			}
+			usedNum[num] = true
+			g := uint16(10000 + rng.Intn(55536))
+			var v pdf.Object
+			switch rng.Intn(3) {
+			case 0:
+				v = pdf.Dict{"Answer": pdf.Integer(rng.Intn(1000)), "K": pdf.Name(fmt.Sprintf("N%d", i))}
+			case 1:
+				v = pdf.Array{pdf.Integer(i), pdf.String(strings.Repeat("s", rng.Intn(40)))}
+			default:
+				v = pdf.Integer(rng.Intn(1 << 30))
+			}
+			puts = append(puts, put{pdf.NewReference(num, g), v})
+		}
+		for pad := 0; pad < 1100; pad++ {
+			out := &c20Sink{}
+			w, err := pdf.NewWriter(out, pdf.V1_7, &pdf.WriterOptions{HumanReadable: human})
+			if err != nil {
+				c.Violationf("writer-refused-valid-call", "NewWriter: %v", err)
+				return
+			}
+			all := []put{{w.Alloc(), pdf.String(strings.Repeat("x", base+pad))}}
+			all = append(all, puts...)
+			all = append(all, put{w.Alloc(), pdf.Name("Last")})
+			for _, p := range all {
+				if err := w.Put(p.ref, p.val); err != nil {
+					c.Violationf("writer-refused-valid-call", "Put(%s): %v", p.ref, err)
+					return
+				}
+			}
+			data := append([]byte(nil), out.Bytes()...)
+			fi, err := pdf.SequentialScan(bytes.NewReader(data), int64(len(data)))
+			if err != nil {
+				c.Violationf("truncated/scan-fails", "unclosed Writer, %d bytes, %d complete objects (filler %d): %v", len(data), len(all), base+pad, err)
+				return
+			}
+			listed := map[pdf.Reference]*pdf.FileObject{}
+			for _, sec := range fi.Sections {
+				for _, o := range sec.Objects {
+					if !o.Broken {
+						listed[o.Reference] = o
+					}
+				}
+			}
+			for _, p := range all {
+				hdr := fmt.Sprintf("%d %d obj", p.ref.Number(), p.ref.Generation())
+				// (the header is at the start of a line; the filler holds no digits)
+				pos := bytes.Index(data, []byte("\n"+hdr)) + 1
+				if pos <= 0 || !bytes.Contains(data[pos:], []byte("endobj")) {
+					c.Violationf("harness/header-not-in-output", "%q not in the %d bytes the Writer passed on", hdr, len(data))
+					return
+				}
+				fo := listed[p.ref]
+				if fo == nil || int(fo.ObjStart) != pos {
+					c.Violationf("truncated/complete-object-not-listed", "unclosed Writer (HumanReadable=%v), %d bytes, filler string of %d bytes: object %s (header of %d bytes at offset %d) is complete but not listed intact at its offset (listed: %v)", human, len(data), base+pad, p.ref, len(hdr), pos, fo)
+					return
+				}
+				val, err := fi.Read(fo)
+				if err != nil || !gen.Same(p.val, val) {
+					c.Violationf("truncated/value", "unclosed Writer, filler %d: object %s read %s (%v), written %s", base+pad, p.ref, kit.Trunc(gen.Canon(val), 200), err, kit.Trunc(gen.Canon(p.val), 200))
+					return
+				}
+				c.R.Count("longest_header_objects_read", 1)
+				c.R.Seen("longest-header-offset-mod-1024", fmt.Sprint(pos%1024))
+			}
+			c.R.Count("unclosed_writer_files_scanned", 1)
+		}
+		c.Distinct(fmt.Sprintf("lhu|%d|%v|%v", base, human, puts))
 	})
 
 	// a Writer file with an incremental update appended (the same references
